@@ -234,9 +234,13 @@ func MaskString(m *fieldmaskpb.FieldMask) string {
 }
 
 // CloneMask deep copies a mask (nil stays nil).
+// The copy's Paths slice deliberately has spare capacity: a callee that appends to a mask it was handed (instead of
+// building a new one) then writes into storage it shares with whoever else holds that mask.
 func CloneMask(m *fieldmaskpb.FieldMask) *fieldmaskpb.FieldMask {
 	if m == nil {
 		return nil
 	}
-	return &fieldmaskpb.FieldMask{Paths: append([]string(nil), m.Paths...)}
+	paths := make([]string, len(m.Paths), len(m.Paths)+4)
+	copy(paths, m.Paths)
+	return &fieldmaskpb.FieldMask{Paths: paths}
 }
